@@ -23,6 +23,9 @@ Section ClipContract.
   Hypothesis rect_interior : forall (r : Rct) pt,
     inside (as_cmd_seq RMath (rect_path r)) NonZero pt <-> in_rect_open r (Point_x pt) (Point_y pt).
 
+  (* a path without commands has no interior *)
+  Hypothesis empty_no_interior : forall r pt, ~ inside [] r pt.
+
   Definition shape_inside (sh : shapeR) (r : rule) (pt : Pt) : Prop := inside (as_cmd_seq RMath (s_d sh)) r pt.
 
   Lemma bbox_contains (sh : shapeR) bbox r pt :
@@ -34,21 +37,35 @@ Section ClipContract.
     injection H as <-. unfold in_rect_open. cbn. cbn in Hb. lra.
   Qed.
 
-  (* a dropped shape had nothing inside the viewBox; a kept one is cut to exactly the viewBox *)
-  Theorem clip_shape_dropped (vb : Rct) (sh : shapeR) r :
+  (* a dropped shape had nothing inside the viewBox; a kept one is cut to exactly the viewBox.
+     Two ways to be dropped: the box misses the viewBox (nothing of the shape is inside it), or the box reaches in but the
+     intersection with it came back empty (nothing of the normalised outline lies in viewBox /\ box) *)
+  Theorem clip_shape_dropped (vb : Rct) (sh : shapeR) r bbox :
     (0 <= Rect_w vb)%R -> (0 <= Rect_h vb)%R ->
+    rule_of_string (s_fill_rule sh) = Some r -> shape_bbox RMath sk sh = Ok bbox ->
     clip_shape RMath sk vb sh = Ok None ->
-    forall pt, ~ (shape_inside sh r pt /\ in_rect_open vb (Point_x pt) (Point_y pt)).
+    (forall pt, ~ (shape_inside sh r pt /\ in_rect_open vb (Point_x pt) (Point_y pt))) \/
+    (forall pt, ~ (inside (as_cmd_seq RMath (absolute (s_d sh))) r pt /\
+                   in_rect_open vb (Point_x pt) (Point_y pt) /\ in_rect_open bbox (Point_x pt) (Point_y pt))).
   Proof.
-    intros Hw Hh. unfold clip_shape. destruct (shape_bbox RMath sk sh) as [bbox|e] eqn:Eb; [|discriminate].
+    intros Hw Hh Hr Eb. unfold clip_shape. rewrite Eb.
+    assert (Hbn : (0 <= Rect_w bbox)%R /\ (0 <= Rect_h bbox)%R).
+    { revert Eb. unfold shape_bbox, bounding_box. destruct (negb (skia_path_ok _)); [discriminate|].
+      pose proof (bounds_ordered (as_cmd_seq RMath (s_d sh))) as Hb.
+      destruct (sk_bounds sk (as_cmd_seq RMath (s_d sh))) as [[[x1 y1] x2] y2].
+      intro H. injection H as <-. cbn. lra. }
+    destruct Hbn as [Hbw Hbh].
     destruct (Rect_intersection ROps vb bbox) as [isct|] eqn:Ei.
-    - destruct (Rect_eqb ROps bbox isct); [discriminate|].
-      destruct (rule_of_string (s_fill_rule sh)); [|discriminate].
-      destruct (do_pathop _ _ _) as [[q|]|e]; discriminate.
-    - intros _ pt [Hin Hvb].
+    - destruct (Rect_eqb ROps bbox isct); [discriminate|]. rewrite Hr.
+      destruct (do_pathop sk OpIntersection _) as [[q|]|e] eqn:Ed; try discriminate.
+      destruct q as [|c q]; [|discriminate].
+      intros _. right. intros pt [Hs [Hv Hb]].
+      destruct (intersection_some_open vb bbox isct Hw Hh Hbw Hbh Ei) as [_ [_ Hiff]].
+      pose proof (do_pathop_sem inside sk op_contract simplify_contract _ _ _ _ _ Ed NonZero pt) as Hsem.
+      cbn [fold_sem fold_left fst snd opsem] in Hsem.
+      apply (empty_no_interior NonZero pt). apply Hsem. split; [exact Hs|]. apply rect_interior, Hiff. tauto.
+    - intros _. left. intros pt [Hin Hvb].
       pose proof (bbox_contains sh bbox r pt Eb Hin) as Hbb.
-      assert (Hbw : (0 <= Rect_w bbox)%R) by (unfold in_rect_open in Hbb; lra).
-      assert (Hbh : (0 <= Rect_h bbox)%R) by (unfold in_rect_open in Hbb; lra).
       exact (intersection_none vb bbox Hw Hh Hbw Hbh Ei _ _ (conj Hvb Hbb)).
   Qed.
 
@@ -89,6 +106,7 @@ Section ClipContract.
       pose proof (bbox_contains sh bbox r pt Eb Hin) as Hbb. apply Hiff in Hbb. tauto.
     - rewrite Hr.
       destruct (do_pathop sk OpIntersection _) as [[q|]|e] eqn:Ed; try discriminate.
+      destruct q as [|c0 q0]; [discriminate|]. set (q := c0 :: q0) in *.
       intro H. injection H as <-. right. cbn [with_geom s_fill_rule s_fill s_opacity s_id s_d].
       split; [reflexivity|]. split; [reflexivity|]. split; [reflexivity|]. split; [reflexivity|].
       intros r' pt.
@@ -96,3 +114,16 @@ Section ClipContract.
       cbn [fold_sem fold_left fst snd opsem] in Hs. rewrite Hs, rect_interior, Hiff. tauto.
   Qed.
 End ClipContract.
+
+(* a shape that stays either stays as it is or carries the (non-empty) intersection *)
+Theorem clip_shape_kept_nonempty (sk : @skia ROps) (vb : Rct) (sh sh' : shapeR) :
+  clip_shape RMath sk vb sh = Ok (Some sh') -> sh' = sh \/ s_d sh' <> [].
+Proof.
+  unfold clip_shape. destruct (shape_bbox RMath sk sh) as [bbox|e]; [|discriminate].
+  destruct (Rect_intersection ROps vb bbox) as [isct|]; [|discriminate].
+  destruct (Rect_eqb ROps bbox isct).
+  - intro H. injection H as <-. left. reflexivity.
+  - destruct (rule_of_string (s_fill_rule sh)); [|discriminate].
+    destruct (do_pathop sk OpIntersection _) as [[q|]|e]; try discriminate.
+    destruct q as [|c q]; [discriminate|]. intro H. injection H as <-. right. cbn [with_geom s_d]. discriminate.
+Qed.
